@@ -648,6 +648,29 @@ def sweep_cases(rng, n_cmds, prof_kw):
     return out
 
 
+def directed_cases():
+    """an option that may be given without a value, waiting for one when `--` is read: with and without the tail it holds its
+    default_missing_value, split at ITS delimiter -- also under dont_delimit_trailing_values, which speaks of the values behind
+    the `--` only (seeded change seed3/C05-2 let the escape marker of the pending occurrence reach the substituted defaults)"""
+    out = []
+    for settings in ([], ["dont_delimit_trailing_values"]):
+        for num in ((0, 1), (0, None), (0, 2)):
+            for act in ("set", "append"):
+                for rest_delim in (None, ","):
+                    rest = {"id": b"rest", "num": (1, None), "flags": set()}
+                    if rest_delim:
+                        rest["delim"] = rest_delim
+                    c = {"name": b"p", "about": b"A:p", "groups": [], "aliases": [], "subs": [], "settings": list(settings),
+                         "args": [{"id": b"v", "short": "v", "action": "settrue", "flags": set()},
+                                  {"id": b"feat", "short": "F", "long": b"features", "action": act, "num": num, "delim": ",",
+                                   "dmissing": [b"std,alloc"], "flags": set()}, rest]}
+                    for pre in ([b"prog", b"--features"], [b"prog", b"-v", b"-F"], [b"prog", b"--features", b"a,b"],
+                                [b"prog", b"--features=a,b"], [b"prog", b"-vF"]):
+                        for tail in ([b"--help", b"-x"], [b"x,y"], [b"w"], [b"x,y", b"z,w", b"--features"]):
+                            out.append(case_sx(c, pre, tail, [b"zz"] * len(tail)))
+    return out
+
+
 def describe(cases):
     shapes = collections.Counter()
     feats = collections.Counter()
@@ -723,7 +746,7 @@ GLOBALS = dict(globals=0.5, last=0.25, tva=0.1, delims=0.3, infer=0.2, invalid=0
 def streams(tier, rng):
     big = tier == "thorough"
     STATS.clear()
-    main = gen_c05_cases(rng, 60000 if big else 6000, MAIN)
+    main = directed_cases() + gen_c05_cases(rng, 60000 if big else 6000, MAIN)
     adv = gen_c05_cases(rng, 40000 if big else 4000, ADVERSARIAL, p_pending=0.3, p_mutate=0.4, safe_p=0.6)
     sweep = sweep_cases(rng, 60 if big else 8, MAIN)
     glob = gen_c05_cases(rng, 15000 if big else 1500, GLOBALS)
